@@ -1880,13 +1880,16 @@ fn read_residuals<R: BitRead, I: SignedInteger>(
                     partition.iter_mut().try_for_each(|s| {
                         let msb = reader.read_unary::<1>()?;
                         let lsb = reader.read_counted::<RICE_MAX, u32>(rice)?;
-                        let unsigned = (msb << u32::from(rice)) | lsb;
+                        // a residual must fit in 32 bits
+                        let unsigned =
+                            u32::try_from((u64::from(msb) << u32::from(rice)) | u64::from(lsb))
+                                .map_err(|_| Error::ResidualOverflow)?;
                         *s = if (unsigned & 1) == 1 {
                             -(I::from_u32(unsigned >> 1)) - I::ONE
                         } else {
                             I::from_u32(unsigned >> 1)
                         };
-                        Ok::<(), std::io::Error>(())
+                        Ok::<(), Error>(())
                     })?;
                 }
                 ResidualPartitionHeader::Escaped { escape_size } => {
